@@ -1,7 +1,7 @@
 CONSTANTS S = 6
 NWMAX = 8
-KMAX = 20
-FMAX = 4
+KMAX = 31
+FMAX = 2
 INIT Init
 NEXT Next
 CHECK_DEADLOCK FALSE
